@@ -219,9 +219,21 @@ class _randobj:
                         names = dir(self)
                         names.sort(key=lambda f: not isinstance(
                             getattr(type(self), f, None), dynamic_constraint_t))
+                        # Register every dynamic block before any body is 
+                        # elaborated: a dynamic constraint may refer to one 
+                        # that comes later in name order
+                        for f in names:
+                            if isinstance(getattr(type(self), f, None), dynamic_constraint_t):
+                                block = ConstraintBlockModel(f)
+                                block.is_dynamic = True
+                                model.add_dynamic_constraint(block)
                         for f in names:
                             if not f.startswith("__") and not f.startswith("_int"):
                                 fo = getattr(self, f)
+                                if isinstance(getattr(type(self), f, None), dynamic_constraint_t):
+                                    # (by name, the instance now answers with a reference 
+                                    # to the registered block)
+                                    fo = getattr(type(self), f)
                                 if isinstance(fo, constraint_t):
                                     clear_exprs()
                                     block = ConstraintBlockModel(f)
@@ -242,7 +254,8 @@ class _randobj:
                                     clear_exprs()
                                 elif isinstance(fo, dynamic_constraint_t):
                                     clear_exprs()
-                                    block = ConstraintBlockModel(f)
+                                    block = model.constraint_dynamic_model_l[
+                                        model.constraint_dynamic_m[f]]
                                     block.srcinfo = fo.srcinfo
                                     push_constraint_scope(block)
                                     try:
@@ -256,8 +269,6 @@ class _randobj:
                                         clear_exprs()
                                         raise e
                                     fo.set_model(pop_constraint_scope())
-                                    fo.model.is_dynamic = True
-                                    model.add_dynamic_constraint(fo.model)
                                     clear_exprs()
     
                 self._int_field_info.model.name = name
